@@ -83,3 +83,15 @@ Definition ctx_mon (g : ccfg) (tr : list otok) (errs : list bool) (finish : bool
    by the monitor, the rest of the trace token by token *)
 Definition no_down (l : list otok) : list otok := filter (fun t => match t with ODown _ => false | _ => true end) l.
 Definition seq_ok (g : ccfg) (tr : list otok) (finish : bool) : bool := olist_eqb (no_down (seq_trace g finish)) (no_down tr).
+
+(* a run that was CANCELLED from outside: some runs never start, hooks of interrupted runs still pair up; what remains of the statement:
+   the order rules of [prefix_ok], no up / down twice, down exactly for the contexts that were started, and down after everything else *)
+Definition ctx_mon_cancelled (g : ccfg) (tr : list otok) (finish : bool) : bool :=
+  prefix_ok g [] tr
+  && forallb (fun c =>
+       Nat.leb (cnt (otok_eqb (OUpB c)) tr) 1 && Nat.leb (cnt (otok_eqb (OUpE c)) tr) 1
+       && Nat.leb (cnt (otok_eqb (OCa c)) tr) (cnt (otok_eqb (OCb c)) tr)
+       && Nat.eqb (cnt (otok_eqb (ODown c)) tr) (if finish then cnt (otok_eqb (OUpB c)) tr else 0))
+     (ctxs g)
+  && (let fix tail_downs (l : list otok) := match l with [] => true | ODown _ :: l' => tail_downs l' | _ :: _ => false end in
+      let fix go (l : list otok) := match l with [] => true | ODown c :: l' => tail_downs l' | _ :: l' => go l' end in go tr).
